@@ -57,4 +57,5 @@ e416d58 C07
 f89ce52 C13 C10
 4c5f5c3 C13
 3f75171 C10
+bc0d713 C10
 LIST
